@@ -298,7 +298,8 @@ def shrink(case, monitor):
 
 
 def gen_case(rnd, tier):
-    a = hs.gen_build(rnd, maxkeys=10 if tier == "quick" else 16, prune=False)
+    a = hs.gen_build(rnd, maxkeys=10 if tier == "quick" else 16, prune=False) if rnd.random() > 0.04 else \
+        hs.gen_build(rnd, maxkeys=70, prune=False, bulk=True)
     hist = a["hist"]
     # sibling: shares keys with A, stores other values under some of them
     pool = gen.value_pool(rnd)
